@@ -23,8 +23,10 @@ type c07Silent struct {
 }
 
 // goIterSilent: every return of a registered iterator function is gojq.NewIter() or gojq.NewIter(<error>).
-func (s *c07Silent) goIterSilent(fn *ssa.Function) bool {
-	if fn == nil || fn.Blocks == nil {
+func (s *c07Silent) goIterSilent(fn *ssa.Function) bool { return s.goIterSilentD(fn, 0) }
+
+func (s *c07Silent) goIterSilentD(fn *ssa.Function, depth int) bool {
+	if fn == nil || fn.Blocks == nil || depth > 2 {
 		return false
 	}
 	errT := types.Universe.Lookup("error").Type().Underlying().(*types.Interface)
@@ -40,6 +42,13 @@ func (s *c07Silent) goIterSilent(fn *ssa.Function) bool {
 			return
 		}
 		call, isCall := ret.Results[0].(*ssa.Call)
+		if isCall && call.Common().StaticCallee() != nil && call.Common().StaticCallee().Pkg == fn.Pkg && call.Common().StaticCallee() != fn {
+			// a same-package helper that builds the iterator
+			if !s.goIterSilentD(call.Common().StaticCallee(), depth+1) {
+				ok = false
+			}
+			return
+		}
 		if !isCall || call.Common().StaticCallee() == nil || call.Common().StaticCallee().String() != c07GojqPath+".NewIter" || len(call.Common().Args) != 1 {
 			ok = false
 			return
@@ -447,6 +456,33 @@ func c07ToJSON(r *fw.Run, p *fw.Program, jq *fw.JQ, goReg map[string]c07Reg) {
 		}
 		ru.Check(good, fmt.Sprintf("decodeJSON:UseNumber#%d", i), p.Rel(dc.Pos()), "UseNumber() on the same decoder dominates Decode", "Decode without a dominating UseNumber() on the same decoder: integers beyond 2^53 lose precision (the engine's fromjson uses UseNumber)")
 	}
+	// the decoder reads the whole input: NewDecoder(NewIOReader(d.RawLen(d.Len()))) on one and the same d
+	{
+		whole := false
+		var newDec ssa.CallInstruction
+		for _, c := range fw.CallsIn(dec) {
+			if fw.CalleeName(c) == "encoding/json.NewDecoder" && len(c.Common().Args) == 1 {
+				newDec = c
+			}
+		}
+		if newDec != nil {
+			v, _ := stripIface(newDec.Common().Args[0])
+			if rd, ok := v.(*ssa.Call); ok && fw.CalleeName(rd) == fw.Mod+"/pkg/bitio.NewIOReader" && len(rd.Common().Args) == 1 {
+				br, _ := stripIface(rd.Common().Args[0])
+				if rl, ok := br.(*ssa.Call); ok && rl.Common().StaticCallee() != nil && rl.Common().StaticCallee().Name() == "RawLen" && len(rl.Common().Args) == 2 {
+					if ln, ok := rl.Common().Args[1].(*ssa.Call); ok && ln.Common().StaticCallee() != nil && ln.Common().StaticCallee().Name() == "Len" &&
+						len(ln.Common().Args) == 1 && ln.Common().Args[0] == rl.Common().Args[0] && len(dec.Params) > 0 && rl.Common().Args[0] == ssa.Value(dec.Params[0]) {
+						whole = true
+					}
+				}
+			}
+		}
+		if newDec == nil {
+			ru.Undecided("decodeJSON:whole-input", p.Rel(dec.Pos()), "no encoding/json.NewDecoder call")
+		} else {
+			ru.Check(whole, "decodeJSON:whole-input", p.Rel(newDec.Pos()), "json.NewDecoder(bitio.NewIOReader(d.RawLen(d.Len())))", "the JSON decoder is not fed exactly the whole input d.RawLen(d.Len()): fromjson sees a truncated or different text")
+		}
+	}
 	// every store to scalar.Any.Actual comes from gojq.NormalizeNumbers
 	anyT := p.NamedType("pkg/scalar", "Any")
 	nst := 0
@@ -568,6 +604,41 @@ func c07CheckToJSONGo(ru *fw.Rule, p *fw.Program, fn *ssa.Function, optT *types.
 		}
 		ru.Check(good, "_to_json/1:options.ValueFn", p.Rel(newEnc.Pos()), "ValueFn unwraps gojq.JQValue with JQValueToGoJQ (as the engine's encoder does)", "ValueFn does not unwrap gojq.JQValue through JQValueToGoJQ")
 	}
+	// the options reach the encoder as the caller passed them: tojson/0 passes null, i.e. the zero options, so
+	// nothing may assign to a field of an options parameter (a Go-side default would make tojson/0 non-compact)
+	modified := ""
+	for _, f := range fns {
+		for _, pa := range f.Params {
+			if !types.Identical(pa.Type(), fn.Params[len(fn.Params)-1].Type()) {
+				continue
+			}
+			if _, isStruct := pa.Type().Underlying().(*types.Struct); !isStruct || pa.Referrers() == nil {
+				continue
+			}
+			for _, rf := range *pa.Referrers() {
+				sp, isSt := rf.(*ssa.Store)
+				if !isSt || sp.Val != ssa.Value(pa) {
+					continue
+				}
+				al, isAl := sp.Addr.(*ssa.Alloc)
+				if !isAl || al.Referrers() == nil {
+					continue
+				}
+				for _, r2 := range *al.Referrers() {
+					fa, isFA := r2.(*ssa.FieldAddr)
+					if !isFA || fa.Referrers() == nil {
+						continue
+					}
+					for _, r3 := range *fa.Referrers() {
+						if st2, isSt2 := r3.(*ssa.Store); isSt2 && st2.Addr == ssa.Value(fa) {
+							modified = fieldNameOf(fa.X.Type(), fa.Field) + " in " + f.Name()
+						}
+					}
+				}
+			}
+		}
+	}
+	ru.Check(modified == "", "_to_json/1:options.unmodified", p.Rel(fn.Pos()), "the options parameter is never assigned to", "the options parameter is modified before use ("+modified+"): tojson/0 (null options) no longer encodes with the zero, compact options")
 	// Marshal(input, buf) and return buf.String()
 	v, _ := stripIface(marshal.Common().Args[1])
 	ru.Check(v == ssa.Value(input) || marshal.Common().Args[1] == ssa.Value(input), "_to_json/1:marshal-input", p.Rel(marshal.Pos()), "Marshal(input, buffer)", "the value marshalled is not the jq input of _to_json")
